@@ -275,11 +275,13 @@ def specValidate (D : Discard) (o : Options) (st : State) (m : Message) : Option
 
 /-- what the targeted protocol version allows: under exactly 1.0 no developer fields and no base type
 added after `byte`. (Nothing is demanded of a field without `FieldBase`: validation drops it.) -/
+def fieldAllowed (f : Field) : Bool :=
+  match f.base with
+  | some b => !afterV1 b.baseType
+  | none => true
+
 def protoOk (ver : Nat) (m : Message) : Bool :=
-  ver != protoV1 ||
-    (m.devFields.isEmpty && m.fields.all fun f => match f.base with
-      | some b => !afterV1 b.baseType
-      | none => true)
+  ver != protoV1 || (m.devFields.isEmpty && m.fields.all fieldAllowed)
 
 /-! ### the gate in front of the writer -/
 
